@@ -410,6 +410,11 @@ func (t *Tr) callInner(instr ssa.Instruction, cc *ssa.CallCommon, pos token.Pos,
 		} else if strings.HasPrefix(callee.String(), "google.golang.org/grpc/status.Error") && len(cc.Args) > 0 {
 			// status.Error(codes.OK, ..) is nil
 			t.c.assert(implies(not(eq(t.term(cc.Args[0]), tInt(0))), lt(tInt(0), res.T)))
+		} else if (strings.HasSuffix(callee.String(), "errors.Wrap") || strings.HasSuffix(callee.String(), "errors.Wrapf")) && len(cc.Args) > 0 {
+			// pkg/errors.Wrap(nil, ..) is nil; anything else is wrapped into a non-nil error
+			w := t.term(cc.Args[0])
+			t.c.assert(implies(eq(w, tInt(0)), eq(res.T, tInt(0))))
+			t.c.assert(implies(not(eq(w, tInt(0))), lt(tInt(0), res.T)))
 		} else {
 			t.c.fact(lt(tInt(0), res.T))
 		}
